@@ -186,6 +186,7 @@ def check_helicity_step(repo, chk, oblige):
 # clause (d): frame typing of the boosts in cal_chain_boost / cal_single_boost
 # ---------------------------------------------------------------------------------------------
 CAL = "tf_pwa/cal_angle.py::"
+LV = "tf_pwa/angle.py::LorentzVector."
 
 
 class _Inline(ast.NodeTransformer):
@@ -218,120 +219,97 @@ def _frame_of(expr, env, depth=0):
     return None
 
 
+class _FVec:
+    """the four-momentum of `part` expressed in the frame reached from the lab by the boosts in `frame` (a tuple of
+    particle names: () is the lab frame, ("A", "R") the rest frame of R reached through the rest frame of A)"""
+
+    def __init__(self, part, frame):
+        self.part, self.frame = part, tuple(frame)
+
+    def __repr__(self):
+        return "p(%s)@%s" % (self.part, "/".join(self.frame) or "lab")
+
+
+_WORLDS = [
+    # (top, [(core, outs), ...] in the order the chain lists them)
+    ("A", [("A", ["R", "C"]), ("R", ["B", "D"])]),
+    ("A", [("R", ["B", "D"]), ("A", ["R", "C"])]),
+    ("A", [("A", ["R1", "R2"]), ("R1", ["B", "C"]), ("R2", ["D", "E"])]),
+    ("A", [("S", ["D", "E"]), ("R", ["S", "C"]), ("A", ["R", "B"])]),
+    ("A", [("A", ["B", "C", "D"])]),
+]
+
+
 def check_frame_typing(repo, chk):
-    chk.rule("T-frame", "every LorentzVector.rest_vector(p_rest, pj) in the chain-boost builders takes both momenta from the same frame (both lab `data[.][\"p\"]` or both `part_data[D][\"rest_p\"][.]` of the same decay D), p_rest is the decaying particle's momentum, and the result is stored as the rest-frame momentum of that decay")
+    """cal_chain_boost / cal_single_boost interpreted on small decay chains with frame-typed momenta"""
+    from ..sym import SelfObj
+    chk.rule("T-frame", "cal_chain_boost / cal_single_boost interpreted on %d decay chains (up to three levels, decays listed in either order) with frame-typed momenta: every LorentzVector.rest_vector(p_rest, pj) takes both momenta from the same frame, p_rest is the decaying particle's momentum, the result is stored as rest_p[<that particle>] of that decay, and below the top decay cal_chain_boost reaches the rest frame through the chain of mother rest frames" % len(_WORLDS))
+    rv = repo.fn(LV + "rest_vector")
+    dcls = repo.cls("tf_pwa/particle.py::BaseDecay")
+    ccls = repo.cls("tf_pwa/particle.py::DecayChain")
     n_sites = 0
-    for key in (CAL + "cal_chain_boost", CAL + "cal_single_boost"):
+    for key, chained in ((CAL + "cal_chain_boost", True), (CAL + "cal_single_boost", False)):
         fn = repo.fn(key)
+        for top, decs in _WORLDS:
+            problems = []
+            calls = [0]
 
-        def is_rv(c):
-            return isinstance(c, ast.Call) and norm_text(c.func).endswith("rest_vector") and len(c.args) + len(c.keywords) == 2
+            def rest_vector(tr_, a_, k_, n_):
+                names = rv.all_param_names()
+                b = dict(zip(names, a_))
+                b.update(k_)
+                pr, pj = b.get(names[0]), b.get(names[1])
+                calls[0] += 1
+                if not isinstance(pr, _FVec) or not isinstance(pj, _FVec):
+                    problems.append(("args", "rest_vector(%r, %r): the arguments are not momenta of the event" % (pr, pj), n_))
+                    return pj
+                if pr.frame != pj.frame:
+                    problems.append(("mixed-frame:%s" % pj.part, "boost velocity %r but boosted momentum %r: the result is not the momentum in the rest frame of %s (intermediate boosts dropped)" % (pr, pj, pr.part), n_))
+                return _FVec(pj.part, pr.frame + (pr.part,))
 
-        ctx = ["any"]  # "top" / "nontop" branch of cal_chain_boost
-
-        def typed(call, env, cur_decay, st):
-            """frame check of one rest_vector call; returns (fa, fb)"""
-            nonlocal n_sites
-            n_sites += 1
-            a0, a1 = (list(call.args) + [k.value for k in call.keywords])[:2]
-            fa, fb = _frame_of(a0, env), _frame_of(a1, env)
-            if fa is None or fb is None:
-                raise AnalysisError("%s:%d the frame of `%s` / `%s` is not recognisable (neither data[.][\"p\"] nor part_data[.][\"rest_p\"][.])" % (fn.mod.rel, st.lineno, norm_text(a0), norm_text(a1)))
-            site = "%s@%s" % (norm_text(_Inline(env).visit(ast.parse(ast.unparse(a1), mode="eval").body)), cur_decay or "?")
-            ok = fa[0] == fb[0] and (fa[0] == "lab" and fa[1] == fb[1] or fa[0] == "rest" and fa[1:3] == fb[1:3])
-            chk.oblige("T-frame", "%s:%d rest_vector(%s, %s): frames %s / %s agree" % (fn.mod.rel, st.lineno, norm_text(a0), norm_text(a1), fa[:-1], fb[:-1]), ok)
-            if not ok:
-                chk.violation("T-frame", key, "mixed-frame:" + site, "boost velocity taken from %s but the boosted momentum from %s: the result is not the momentum in the decaying particle's rest frame (intermediate boosts dropped)" % (fa, fb), file=fn.mod.rel, line=st.lineno)
-            if ok and ctx[0] == "nontop" and cur_decay is not None:
-                # below the top decay the momenta must be taken in the rest frame of the decay that produced the mother
-                # (chained boosts); a direct boost from the lab frame differs by a Wigner rotation
-                chained = fa[0] == "rest" and fa[2].replace(" ", "") == "core_decay_map[%s.core]" % cur_decay
-                chk.oblige("T-frame", "%s:%d non-top decay: momenta taken in the rest frame of the decay that produced %s.core" % (fn.mod.rel, st.lineno, cur_decay), chained)
-                if not chained:
-                    chk.violation("T-frame", key, "direct-boost:" + site, "below the top decay the boost starts from %s instead of the rest frame of the decay that produced %s.core: the chained boosts are replaced by a direct boost (Wigner rotation lost, helicity angles change for a moving parent)" % (fa[:3], cur_decay), file=fn.mod.rel, line=st.lineno)
-            if ok and cur_decay is not None:
-                part = fa[-1]
-                if part != cur_decay + ".core":
-                    chk.violation("T-frame", key, "boost-velocity:" + site, "boost velocity is the momentum of %s, not of the decaying particle %s.core" % (part, cur_decay), file=fn.mod.rel, line=st.lineno)
-                chk.oblige("T-frame", "%s:%d boost velocity is the momentum of %s.core" % (fn.mod.rel, st.lineno, cur_decay), part == cur_decay + ".core")
-            return fa, fb
-
-        def stored(tgt_frame, fb, cur_decay, st, text):
-            ok = fb is not None and tgt_frame[2] == (cur_decay or tgt_frame[2]) and tgt_frame[3] == fb[-1]
-            chk.oblige("T-frame", "%s:%d stored as rest_p[%s] of decay %s" % (fn.mod.rel, st.lineno, tgt_frame[3], tgt_frame[2]), ok)
-            if not ok:
-                chk.violation("T-frame", key, "store:%s" % text, "the boosted momentum of %s is stored under %s" % (fb and fb[-1], text), file=fn.mod.rel, line=st.lineno)
-
-        def walk(stmts, env, cur_decay):
-            for st in stmts:
-                if isinstance(st, (ast.For, ast.While, ast.If, ast.With, ast.Try)):
-                    if isinstance(st, ast.For):
-                        d = cur_decay
-                        if isinstance(st.target, ast.Name) and norm_text(st.iter) in ("decay_set", "decay_chain"):
-                            d = st.target.id
-                        walk(st.body, dict(env), d)
-                    elif isinstance(st, ast.If):
-                        t = norm_text(st.test).replace(" ", "")
-                        saved = ctx[0]
-                        if t.endswith("==decay_chain.top") or t.startswith("decay_chain.top=="):
-                            ctx[0] = "top"
-                            walk(st.body, dict(env), cur_decay)
-                            ctx[0] = "nontop"
-                            walk(st.orelse, dict(env), cur_decay)
-                        elif t.endswith("incore_decay_map"):
-                            ctx[0] = "nontop"
-                            walk(st.body, dict(env), cur_decay)
-                            ctx[0] = saved
-                            walk(st.orelse, dict(env), cur_decay)
-                        else:
-                            walk(st.body, dict(env), cur_decay)
-                            walk(st.orelse, dict(env), cur_decay)
-                        ctx[0] = saved
-                    else:
-                        walk(st.body, dict(env) if isinstance(st, ast.While) else env, cur_decay)
+            decays = [SelfObj(dcls, {"core": c, "outs": list(o), "__str__": "%s->%s" % (c, "+".join(o))}) for c, o in decs]
+            inner = [c for c, _ in decs if c != top]
+            outs = [x for _, o in decs for x in o if x not in [c for c, _ in decs]]
+            chain = SelfObj(ccls, {"chain": list(decays), "top": top, "inner": list(inner), "outs": list(outs)})
+            data = {x: {"p": _FVec(x, ())} for x in [top] + inner + outs}
+            tr = Translator(repo, hooks={rv.key: rest_vector}, max_depth=3)
+            try:
+                out = tr.call_fn(fn, [data, chain])
+            except Unmodelled as e:
+                raise AnalysisError("%s cannot be interpreted on the chain %s: %s" % (key, decs, e))
+            n_sites += calls[0]
+            path = {top: ()}
+            for _ in decs:
+                for c, o in decs:
+                    if c in path:
+                        for x in o:
+                            path[x] = path[c] + (c,)
+            if not isinstance(out, dict):
+                raise AnalysisError("%s no longer returns the per-decay table" % key)
+            for d, (c, o) in zip(decays, decs):
+                ent = out.get(d)
+                rp = ent.get("rest_p") if isinstance(ent, dict) else None
+                if not isinstance(rp, dict):
+                    problems.append(("store:%s" % c, "no rest_p table for the decay %s" % d.attrs["__str__"], None))
                     continue
-                calls = [c for c in ast.walk(st) if is_rv(c)]
-                if isinstance(st, ast.Assign) and len(st.targets) == 1:
-                    tgt, val = st.targets[0], st.value
-                    if isinstance(tgt, ast.Name):
-                        if is_rv(val):
-                            fa, fb = typed(val, env, cur_decay, st)
-                            env[tgt.id] = ("RESULT", fa, fb)
-                        elif isinstance(val, ast.DictComp) and is_rv(val.value):
-                            # rest_p = {j: rest_vector(p_rest, <momentum of j>) for j in ...}
-                            fa, fb = typed(val.value, env, cur_decay, st)
-                            env[tgt.id] = ("RESULTMAP", fa, fb, norm_text(val.key))
-                        elif calls:
-                            raise AnalysisError("%s:%d rest_vector inside `%s`: store of the result not recognised" % (fn.mod.rel, st.lineno, norm_text(st)[:60]))
-                        else:
-                            env[tgt.id] = val
-                        continue
-                    if isinstance(tgt, ast.Subscript):
-                        tf_ = _frame_of(tgt, {})
-                        if is_rv(val) and tf_ and tf_[0] == "rest":
-                            fa, fb = typed(val, env, cur_decay, st)
-                            stored(tf_, fb, cur_decay, st, norm_text(tgt))
-                            continue
-                        if isinstance(val, ast.Name) and isinstance(env.get(val.id), tuple) and tf_ and tf_[0] == "rest":
-                            stored(tf_, env[val.id][2], cur_decay, st, norm_text(tgt))
-                            continue
-                        # part_data[D] = {"rest_p": <map built above>}
-                        if isinstance(val, ast.Dict) and isinstance(tgt.value, ast.Name):
-                            hit = False
-                            for k_, v_ in zip(val.keys, val.values):
-                                if isinstance(k_, ast.Constant) and k_.value == "rest_p" and isinstance(v_, ast.Name) and isinstance(env.get(v_.id), tuple) and env[v_.id][0] == "RESULTMAP":
-                                    _, fa, fb, keytext = env[v_.id]
-                                    stored(("rest", tgt.value.id, norm_text(tgt.slice), keytext), fb, cur_decay, st, norm_text(tgt) + "['rest_p'][" + keytext + "]")
-                                    hit = True
-                            if hit:
-                                continue
-                        # part_data[D]["rest_p"] = {j: rest_vector(p_rest, <momentum of j>) for j in ...}
-                        if isinstance(val, ast.DictComp) and is_rv(val.value) and isinstance(tgt.slice, ast.Constant) and tgt.slice.value == "rest_p" and isinstance(tgt.value, ast.Subscript):
-                            fa, fb = typed(val.value, env, cur_decay, st)
-                            stored(("rest", norm_text(tgt.value.value), norm_text(tgt.value.slice), norm_text(val.key)), fb, cur_decay, st, norm_text(tgt) + "[" + norm_text(val.key) + "]")
-                            continue
-                if calls:
-                    raise AnalysisError("%s:%d rest_vector inside `%s`: store of the result not recognised" % (fn.mod.rel, st.lineno, norm_text(st)[:60]))
-
-        walk(fn.node.body, {}, None)
+                want_frame = (path[c] + (c,)) if chained else (c,)
+                for x in o:
+                    if x not in rp:
+                        problems.append(("store:%s" % x, "rest_p of %s has no entry for its daughter %s" % (d.attrs["__str__"], x), None))
+                for x, v in rp.items():
+                    if not isinstance(v, _FVec) or v.part != x:
+                        problems.append(("store:%s" % x, "rest_p[%s] of %s holds %r" % (x, d.attrs["__str__"], v), None))
+                    elif v.frame[-1:] != (c,):
+                        problems.append(("boost-velocity:%s" % x, "rest_p[%s] of %s is %r: boosted with the momentum of %s, not of the decaying particle %s" % (x, d.attrs["__str__"], v, v.frame[-1] if v.frame else "nothing", c), None))
+                    elif v.frame != want_frame:
+                        problems.append(("direct-boost:%s" % x, "rest_p[%s] of %s is %r, expected the frame %s: the chained boosts are replaced (Wigner rotation lost, helicity angles change for a moving parent)" % (x, d.attrs["__str__"], v, "/".join(want_frame)), None))
+            label = "%s on %s" % (key.split("::")[1], " ; ".join("%s->%s" % (c, "+".join(o)) for c, o in decs))
+            chk.oblige("T-frame", "%s: %d boosts, all frame-consistent, stored per decay and daughter, frame = %s" % (label, calls[0], "chain of mother rest frames" if chained else "rest frame of the decaying particle"), not problems)
+            seen = set()
+            for construct, msg, node in problems:
+                if construct in seen:
+                    continue
+                seen.add(construct)
+                chk.violation("T-frame", key, construct, "%s: %s" % (label, msg), file=fn.mod.rel, line=getattr(node, "lineno", fn.lineno))
     chk.require_count("T-frame", 10)
+    chk.info("T-frame: %d rest_vector calls interpreted" % n_sites)
